@@ -534,5 +534,5 @@ class RoomManager(BaseManager):
         await self._network.send_server_messages(
             TogglePrivateRoomInvites.Request(self._settings.rooms.private_room_invites)
         )
-        if not self._settings.rooms.auto_join:
+        if self._settings.rooms.auto_join:
             await self.auto_join_rooms()
